@@ -9,14 +9,38 @@
 #include "lz4.c"
 #include "lz4hc.c"
 #include "xxhash.c"
+/* the two calls by which lz4frame.c drives the LZ4 stream of a linked-blocks frame at the fast levels are interposed (no change to the library): the
+ * schedule (which bytes are compressed from which address, when the history is moved where) is logged for the model of Model/FrameLinked.lean */
+static int vf_compress_fast_continue(LZ4_stream_t* s, const char* src, char* dst, int n, int cap, int acc);
+static int vf_saveDict(LZ4_stream_t* s, char* safe, int k);
+#define LZ4_compress_fast_continue vf_compress_fast_continue
+#define LZ4_saveDict vf_saveDict
 #include "lz4frame.c"
+#undef LZ4_compress_fast_continue
+#undef LZ4_saveDict
 #include "gen.h"
+static int g_life_on = 0; static unsigned char* g_life = NULL; static size_t g_life_n = 0, g_life_cap = 0; static unsigned long long g_life_blocks = 0, g_life_saves = 0;
+static void life_put(const void* d, size_t n) { if (g_life_n + n > g_life_cap) { g_life_cap = (g_life_n + n) * 2 + 256; g_life = (unsigned char*)realloc(g_life, g_life_cap); } if (n) memcpy(g_life + g_life_n, d, n); g_life_n += n; }
+static int vf_compress_fast_continue(LZ4_stream_t* s, const char* src, char* dst, int n, int cap, int acc)
+{
+    int r;
+    if (g_life_on) { unsigned char k = 0; unsigned long long a = (unsigned long long)(size_t)src; unsigned int un = (unsigned int)n; life_put(&k, 1); life_put(&a, 8); life_put(&un, 4); life_put(&cap, 4); life_put(&acc, 4); life_put(src, (size_t)n); g_life_blocks++; }
+    r = LZ4_compress_fast_continue(s, src, dst, n, cap, acc);
+    if (g_life_on) life_put(&r, 4);
+    return r;
+}
+static int vf_saveDict(LZ4_stream_t* s, char* safe, int k)
+{
+    int r = LZ4_saveDict(s, safe, k);
+    if (g_life_on) { unsigned char kk = 1; unsigned long long a = (unsigned long long)(size_t)safe; life_put(&kk, 1); life_put(&a, 8); life_put(&k, 4); life_put(&r, 4); g_life_saves++; }
+    return r;
+}
 
 enum { OP_FRAME = 3, OP_FRAMEDEC = 4, OP_GENFUNC = 5, OP_FRAMETRACE = 12 };
 enum { K_STREAM = 0, K_COMPRESSFRAME = 1, K_COMPRESSFRAME_CDICT = 2 };
 enum { DK_NONE = 0, DK_DICT = 1, DK_CDICT = 2 };
 
-static u64 n_reused_differs, n_dict_derived, n_forged_size, n_headers, n_model_frames; static u64 n_calls, n_frames, n_decodes, n_switch, n_flush, n_uncomp, n_volatile, n_dec_ok, n_dec_err, n_dec_incomplete;
+static u64 n_linked_model_frames; static u64 n_reused_differs, n_dict_derived, n_forged_size, n_headers, n_model_frames; static u64 n_calls, n_frames, n_decodes, n_switch, n_flush, n_uncomp, n_volatile, n_dec_ok, n_dec_err, n_dec_incomplete;
 static u8* g_dictbuf;   /* 70000 bytes, blob 1 */
 static u8 g_ops[1 << 16]; static size_t g_nops;   /* call history of the current streaming session: 'U'/'u' + u32 size, 'F' */
 static void op_rec(int code, size_t n) { if (g_nops + 5 <= sizeof g_ops) { g_ops[g_nops++] = (u8)code; if (code != 'F') { u32 v = (u32)n; memcpy(g_ops + g_nops, &v, 4); g_nops += 4; } } else g_nops = sizeof g_ops + 1; }
@@ -340,6 +364,24 @@ int main(int argc, char** argv)
                 g_no_uncompressed = 1; rc = make_frame_stream(fresh, &prefs, data, n, DK_NONE, 0, NULL, &out, 0); g_no_uncompressed = 0;
                 if (rc) { char why[48]; snprintf(why, sizeof why, "compression_call_failed_%d", rc); c_fail(&r, why); }
                 else { r.n -= 1; rec_bytes(&r, out.p, out.n); rec_bytes(&r, g_ops, g_nops <= sizeof g_ops ? g_nops : 0); n_frames++; n_model_frames++; }
+                cur_clear(); rec_write(&r); free(out.p); LZ4F_freeCompressionContext(fresh);
+            }
+        }
+        {   /* the same with LINKED blocks (the default block mode): the model takes the schedule logged by the interposed calls.  Record kind 6. */
+            int nm = thorough ? SH(800) : 120;
+            for (i = 0; i < nm; i++) {
+                static const int fastLevels[] = {0, 0, 1, -1, -3, -100, 1};
+                size_t n = rndp(50) ? rndn(3000) : rndp(70) ? rndn(140000) : rndn(280000); LZ4F_preferences_t prefs = rand_prefs(n); LZ4F_cctx* fresh = NULL; vec_t out; rec_t r; int rc;
+                memset(&out, 0, sizeof out);
+                prefs.frameInfo.blockMode = LZ4F_blockLinked; prefs.compressionLevel = fastLevels[rndn(7)]; if (n > 200000 && prefs.frameInfo.blockSizeID > 5) prefs.frameInfo.blockSizeID = LZ4F_max256KB; if (rndp(55)) prefs.frameInfo.blockSizeID = LZ4F_max64KB;   /* many blocks */
+                gen_data(data, n, rndp(25) ? D_RANDOM : (int)rndn(D_KINDS));
+                if (LZ4F_isError(LZ4F_createCompressionContext(&fresh, LZ4F_VERSION))) continue;
+                rec_begin(&r, OP_FRAME); rec_int(&r, 6); rec_prefs(&r, &prefs); rec_int(&r, 0); rec_int(&r, DK_NONE); rec_bytes(&r, data, n); rec_bytes(&r, NULL, 0); cur_set(&r);
+                g_life_n = 0; g_life_on = 1;
+                g_no_uncompressed = 1; rc = make_frame_stream(fresh, &prefs, data, n, DK_NONE, 0, NULL, &out, 0); g_no_uncompressed = 0;
+                g_life_on = 0;
+                if (rc) { char why[48]; snprintf(why, sizeof why, "compression_call_failed_%d", rc); c_fail(&r, why); }
+                else { r.n -= 1; rec_bytes(&r, out.p, out.n); rec_bytes(&r, g_life, g_life_n); n_frames++; n_linked_model_frames++; }
                 cur_clear(); rec_write(&r); free(out.p); LZ4F_freeCompressionContext(fresh);
             }
         }
@@ -671,7 +713,7 @@ int main(int argc, char** argv)
 
     LZ4F_freeCompressionContext(cctx); LZ4F_freeDecompressionContext(dctx);
     harness_done();
-    stat_u("calls", n_calls); stat_u("reused_cctx_bytes_differ_from_fresh", n_reused_differs); stat_u("dictionary_derived_contents", n_dict_derived); stat_u("forged_content_sizes", n_forged_size); stat_u("headers_alone", n_headers); stat_u("frames_for_end_to_end_model", n_model_frames); stat_u("frames", n_frames); stat_u("decodes", n_decodes); stat_u("flushes", n_flush); stat_u("uncompressed_updates", n_uncomp); stat_u("volatile_sources", n_volatile);
+    stat_u("calls", n_calls); stat_u("reused_cctx_bytes_differ_from_fresh", n_reused_differs); stat_u("dictionary_derived_contents", n_dict_derived); stat_u("forged_content_sizes", n_forged_size); stat_u("headers_alone", n_headers); stat_u("frames_for_end_to_end_model", n_model_frames); stat_u("linked_frames_for_end_to_end_model", n_linked_model_frames); stat_u("linked_frames_blocks_logged", g_life_blocks); stat_u("linked_frames_saveDict_logged", g_life_saves); stat_u("frames", n_frames); stat_u("decodes", n_decodes); stat_u("flushes", n_flush); stat_u("uncompressed_updates", n_uncomp); stat_u("volatile_sources", n_volatile);
     stat_u("mode_switches_with_buffered_data", n_switch); stat_u("dec_complete", n_dec_ok); stat_u("dec_error", n_dec_err); stat_u("dec_incomplete", n_dec_incomplete); stat_u("records", g_nrecords); stat_u("bytes_decoded_into_one_contiguous_buffer", n_big_bytes); stat_u("dstage_traces", n_traces); stat_u("dstage_traced_calls", n_trace_calls);
     stat_u("cfails", (u64)g_cfails);
     free(data); free(g_dictbuf);
